@@ -390,6 +390,78 @@ func c18Stress(g *gen.G, outDir string, round int, dur time.Duration) (*callLog,
 	return l, int(mixed), msg
 }
 
+// scenario: a Monitor call starting while an update3 notification is being applied
+// (pause point update3.applied) must return.
+func c18MonitorDuringUpdate3(lab *srvLab, sc dyn.Schema) (*callLog, string) {
+	l := &callLog{}
+	const D = 8 * time.Second
+	lg := logr.Discard()
+	cl, err := client.NewOVSDBClient(lab.db.Client, client.WithEndpoint("unix:"+lab.sock), client.WithLogger(&lg))
+	if err != nil {
+		return l, err.Error()
+	}
+	writer, err := lab.dial()
+	if err != nil {
+		return l, err.Error()
+	}
+	defer writer.close()
+	ctx, c := ctxD(3 * time.Second)
+	err = cl.Connect(ctx)
+	c()
+	if err != nil {
+		return l, "connect: " + err.Error()
+	}
+	m1 := cl.NewMonitor(client.WithTable(lab.db.New("T")))
+	m1.Method = ovsdb.ConditionalMonitorSinceRPC
+	ctx, c = ctxD(3 * time.Second)
+	_, err = cl.Monitor(ctx, m1)
+	c()
+	if err != nil {
+		return l, "monitor: " + err.Error()
+	}
+	reached, release := make(chan struct{}), make(chan struct{})
+	armed := true
+	client.VerifHook = func(point string) {
+		if point == "update3.applied" && armed {
+			armed = false
+			close(reached)
+			<-release
+		}
+	}
+	defer func() { client.VerifHook = nil }()
+	go lab.runWith([]TOp{{Kind: "insert", Table: "T", Row: map[string]val.Val{"name": val.VA(val.Str("during"))}}}, writer.transactor(sc.Name))
+	select {
+	case <-reached:
+	case <-time.After(5 * time.Second):
+		return l, "the update3 notification did not reach the pause point"
+	}
+	msg := ""
+	done := make(chan struct{})
+	go func() {
+		defer close(done)
+		if !l.timed("Monitor", D, func() {
+			m2 := cl.NewMonitor(client.WithTable(lab.db.New("U")))
+			_, _ = cl.Monitor(context.Background(), m2)
+		}) {
+			msg = "Monitor(context.Background()) started while an update3 notification was being applied does not return within 8 s"
+		}
+	}()
+	time.Sleep(60 * time.Millisecond)
+	close(release)
+	<-done
+	if msg != "" {
+		return l, msg
+	}
+	l.timed("List", D, func() {
+		ctx, c := ctxD(2 * time.Second)
+		defer c()
+		lp := reflect.New(reflect.SliceOf(reflect.TypeOf(lab.db.New("T"))))
+		_ = cl.List(ctx, lp.Interface())
+	})
+	l.timed("Close", D, func() { cl.Close() })
+	return l, ""
+}
+
 func driveC18(o opts) error {
 	quietStderr()
 	g := gen.New(o.seed)
@@ -438,6 +510,15 @@ func driveC18(o opts) error {
 		case <-time.After(90 * time.Second):
 			add(fmt.Sprintf("failing calls (reconnect=%v)", reconnect), &callLog{calls: []string{"Close:late"}}, 0, "the scenario does not finish within 90 s")
 		}
+	}
+	{
+		lab, err := newSrvLab(sc, o.out)
+		if err != nil {
+			return err
+		}
+		l, msg := c18MonitorDuringUpdate3(lab, sc)
+		go lab.close()
+		add("Monitor during update3", l, 0, msg)
 	}
 	rounds, dur := 2, 1200*time.Millisecond
 	if o.tier == "thorough" {
